@@ -8,10 +8,11 @@ import (
 
 func TestReplay(t *testing.T) {
 	verif.ReplayMain(map[string]func(){
-		"HarnessCloseEarly": HarnessCloseEarly,
-		"HarnessLateRead":   HarnessLateRead,
-		"HarnessReader":     HarnessReader,
-		"HarnessSameClient": HarnessSameClient,
-		"HarnessTwoCalls":   HarnessTwoCalls,
+		"HarnessCloseEarly":   HarnessCloseEarly,
+		"HarnessLateRead":     HarnessLateRead,
+		"HarnessReader":       HarnessReader,
+		"HarnessSameClient":   HarnessSameClient,
+		"HarnessSlowProducer": HarnessSlowProducer,
+		"HarnessTwoCalls":     HarnessTwoCalls,
 	})
 }
